@@ -73,8 +73,12 @@ func VH_math(which int, nargs int) {
 	env := environment.NewEnvironmentWithParent(in.globals)
 	args := make([]interface{}, 0, 4)
 	exprs := make([]ast.Expr, 0, 4)
+	size := 1
+	if which == 7 || which == 8 || which == 10 {
+		size = verifChoice(3) // arrays of 0, 1 and 2 elements for the built-ins that take arrays
+	}
 	for i := 0; i < nargs; i++ {
-		v := hvValue(reach.mask(), 1)
+		v := hvValue(reach.mask(), size)
 		args = append(args, v)
 		exprs = append(exprs, lit(v, 5))
 	}
